@@ -453,6 +453,19 @@ func txMain(args []string) error {
 			return err
 		}
 	}
+	if *directed != "" || *count > 0 {
+		// packet numbers of a logical channel wrap modulo 256: more than 256 packets on channel 1
+		for _, body := range []int{1 + rng.Intn(6), 248} {
+			r.chanN = 1
+			ops := []txOp{{Op: "Size", Body: body}}
+			ops = txMessage(rng, ops, 200*body+1, body, 1)
+			ops = txMessage(rng, ops, 150*body, body, 0)
+			if err := r.run(ops); err != nil {
+				return err
+			}
+		}
+		r.chanN = 0
+	}
 	for i := 0; i < *wfail; i++ {
 		body := 248 + rng.Intn(2048)
 		total := 1 + rng.Intn(3*body)
